@@ -243,3 +243,30 @@ Definition cs_reports_error (f_commit f_cleanup : bool) (op : cs_op) (l : list c
 
 Definition cs_outcome (k : nat) (l cleanup : list cs_step) (m : cs_m) : cs_m :=
   if Nat.leb (length l) k then cs_run l m else cs_fail_at k l cleanup m.
+
+(* ---- a lost cache file: State.getLiteral downloads the message again and refills the cache ---- *)
+Section Refill.
+  Variable remote : N -> option cs_bytes.
+  Variable recovered : N -> bool.
+  (* [served_form b] = the bytes served for the connector's literal b (internal-id header set); the cache is refilled
+     with the SERVED bytes when [refill_served] (Gen/FactsStartup.v redownload_refills_served_bytes), else with b *)
+  Variable served_form : cs_bytes -> cs_bytes.
+
+  Definition cs_fetch_refill (refill_served : bool) (m : cs_m) (id : N) : cs_m * option cs_bytes :=
+    match cs_store_get (m_store m) id with
+    | Some b => (m, Some b)
+    | None =>
+        if recovered id then (m, None)
+        else match remote id with
+             | None => (m, None)
+             | Some b => (mkM ((id, if refill_served then served_form b else b) :: cs_store_del (m_store m) id) (m_db m) (m_pend m),
+                          Some (served_form b))
+             end
+    end.
+End Refill.
+
+(* ---- a start that fails (database.Init returns an error) ---- *)
+(* backend.AddUser deletes and recreates the database only after a failed MIGRATION; for every other failure of Init
+   ([keeps] = Gen/FactsStartup.v failed_init_keeps_database) the files are left alone *)
+Definition cs_failed_start (keeps : bool) (m : cs_m) : cs_m :=
+  if keeps then cs_crash m else mkM (m_store m) (mkDb [] [] [] []) None.
